@@ -388,6 +388,6 @@ public:
   }
 };
 KHarness h;
-struct Reg { Reg() { register_harness(&h); hx::register_reclaimer_probes(); xsim::fn_probe("k-FIFO: advance_head executed", "12advance_head"); xsim::fn_probe("k-FIFO: advance_tail executed", "12advance_tail"); xsim::fn_pair_probe("k-FIFO: committed() of a pusher overlaps advance_head", "9committed", "12advance_head"); xsim::fn_pair_probe("k-FIFO: two advance_tail overlap", "12advance_tail", "12advance_tail"); xsim::fn_pair_probe("k-FIFO: find_index of a pusher overlaps advance_head", "10find_index", "12advance_head"); xsim::fn_probe("bounded k-FIFO: in_valid_region evaluated", "15in_valid_region"); xsim::probe_name(0, "large_configuration_runs(k*segments>65536, filled to capacity)"); } } reg;
+struct Reg { Reg() { register_harness(&h); hx::register_reclaimer_probes(); xsim::fn_probe("k-FIFO: advance_head executed", "12advance_head"); xsim::fn_probe("k-FIFO: advance_tail executed", "12advance_tail"); xsim::fn_pair_probe("k-FIFO: committed() of a pusher overlaps advance_head", "9committed", "12advance_head"); xsim::fn_pair_probe("k-FIFO: two advance_tail overlap", "12advance_tail", "12advance_tail"); xsim::fn_pair_probe("k-FIFO: find_index of a pusher overlaps advance_head", "10find_index", "12advance_head"); xsim::fn_probe("bounded k-FIFO: committed() of a pusher executed (region checks)", "26kirsch_bounded_kfifo_queue&9committed"); xsim::probe_name(0, "large_configuration_runs(k*segments>65536, filled to capacity)"); } } reg;
 } // namespace
 XSIM_MAIN()
